@@ -9,14 +9,8 @@ use rustc_middle::mir::{
 };
 use rustc_middle::ty::{self, Ty};
 
-pub fn dump_mir<'tcx>(cx: &mut Cx<'tcx>, def: LocalDefId) -> J {
-    let tcx = cx.tcx;
-    let steal = tcx.mir_built(def);
-    if steal.is_stolen() {
-        return J::Null;
-    }
-    let body = steal.borrow();
-    let mut d = M { cx, body: &body, owner: def };
+pub fn dump_mir<'tcx>(cx: &mut Cx<'tcx>, def: LocalDefId, body: &Body<'tcx>) -> J {
+    let mut d = M { cx, body, owner: def };
     d.body_json()
 }
 
